@@ -140,9 +140,9 @@ def c10(pid, tier, seed):
 
 def c14(pid, tier, seed):
     q = tier == "quick"
-    alltpl = {"S", "B", "W", "SB", "SBWM", "B0", "WW", "bad"}
+    alltpl = {"S", "B", "W", "SB", "SBWM", "B0", "WW", "WnM", "MnW", "bad"}
     gens = [
-        gen("calls3", "MC_Style", dict(D=3, FirstTpls=alltpl, Tpls={"WW", "S"} if q else alltpl, Level=2)),
+        gen("calls3", "MC_Style", dict(D=3, FirstTpls=alltpl, Tpls={"WW", "S", "WnM"} if q else alltpl, Level=2)),
     ]
     if not q:
         gens.append(gen("calls4", "MC_Style", dict(D=4, FirstTpls={"SBWM", "WW", "SB", "B0"}, Tpls={"B0", "bad"}, Level=2)))
